@@ -182,3 +182,39 @@ def c11_units(tier):
 reg("C11", c11_units,
     "bounded symbolic model checking: PlanInput.Validate (with the real hasPlanCycle) is compared with the statement's validity written as a formula; RunPlan is run through the world on an arbitrary store and the replayed result is compared with the document (one epic, one todo unclaimed task per entry inside it, identical titles/bodies, edges exactly the after relation, nothing old altered) and a rejected document writes nothing.",
     ["L1 world stubs; ParsePlanInput yields an arbitrary PlanInput or a parse error (json decoding itself is assumed)", "crash atomicity of the rewrite is C03/C04's subject"])
+
+
+# ---------------------------------------------------------------- C03 / C04 (file model, crash = symbolic effect index)
+HSFS = ["c10.go", "c11.go", "c03.go"]
+FSFLAGS = {"loop": 40, "rec": 3, "stubs": "hasCycle=zzHasCycleSpec,hasPlanCycle=zzPlanCycleSpec,sortedKeys=zzSortedKeysCut"}
+FS_ASSUME = [
+    "L0 file model (engine/world_fs.go): a file is a sequence of line objects {blank, parses, event, complete}; write(2)/rename(2)/open(O_TRUNC|O_APPEND) are atomic effects indexed in program order; a process dies at one symbolic effect index, its last write may land a strict prefix of the line (unparsable) or everything but the newline; process death releases the flock (A1, A3, A5 of DESIGN 3.4)",
+    "bufio.Scanner yields the file's lines as of one instant (A2); lines longer than 10 MiB are outside the model",
+    "CUT: sortedKeys (display-only Deps/RDeps slices) summarised as empty in these units; hasCycle/hasPlanCycle summarised (verified in C07/C11)",
+    "power loss / fsync ordering is outside every claim",
+]
+
+
+def c03_units(tier):
+    return [
+        Unit("compact-stale-tmp", HSFS, "zzC03_CompactStaleTmp", dict(FSFLAGS, only="C03/"), bounds="clean log of <=1 event; a stale <log>.tmp with arbitrary (longer) content may exist; compact"),
+        Unit("crash-then-append", HSFS, "zzC03_CrashThenAppend", dict(FSFLAGS, only="C03/"), bounds="initial log: one arbitrary line satisfying the world invariant (blank / event / torn tail); process A = new task killed at any effect index, write torn or not; then a reader, a surviving writer, a reader; the world invariant is re-established, so crash/write rounds of any number are covered by induction"),
+    ]
+
+
+reg("C03", c03_units,
+    "bounded symbolic model checking of the real storage code (readEvents with its tail tolerance, appendEvents, loadGraph, withLock) over the line-object file model with the crash point as a symbolic integer: reads after a crash succeed, at most the interrupted command's events are missing, acknowledged work is present, later mutations work and keep the store readable.",
+    FS_ASSUME)
+
+
+def c04_units(tier):
+    us = [
+        Unit("claim-atomic", HSFS, "zzC04_ClaimAtomic", dict(FSFLAGS, only="C04/"), bounds="clean log of <=2 arbitrary events; claim (2 events) killed between any two system calls (no torn write: that is C03's fault model)"),
+    ]
+    us.append(Unit("plan-atomic", HSFS, "zzC04_PlanAtomic", dict(FSFLAGS, only="C04/"), bounds="clean log of <=1 event (possibly empty); plan of 1 task through temp file + rename, killed at any effect, stale temp file possible"))
+    return us
+
+
+reg("C04", c04_units,
+    "bounded symbolic model checking of multi-event commands on the file model: the process is killed between any two of its system calls and the replayed state must equal the state before or the state after the command.",
+    FS_ASSUME)
